@@ -234,6 +234,14 @@ def run_history(ctx, pool, gold, limit, hno, alts):
         decs['alt%d' % ai] = Decoder(tables_root_dir=alt)
         decs['alt%dc' % ai] = Decoder(tables_root_dir=alt, compiled_template_cache_max=2)
     encs = {'plain': Encoder(), 'c1': Encoder(compiled_template_cache_max=1)}
+    from pybufrkit.dataquery import DataQuerent, NodePathParser
+    long_q = DataQuerent(NodePathParser())
+
+    def outcome_of(f):
+        try:
+            return f()
+        except Exception as e:
+            return 'raises ' + type(e).__name__
     kept = {}
     kept_alias = {}
     hist = []
@@ -344,6 +352,29 @@ def run_history(ctx, pool, gold, limit, hno, alts):
                                 % (step, name, type(e).__name__), dict(history=hist, step=step, message=name, op=op), exc=e)
                     continue
                 compare(ctx, 'kept', got, g['digest'], i, name, hist, step, 'kept-object' + ('/alias' if kept_alias.get(i) else ''), prev)
+                # a long-lived querent (its parser included) that has also served failing queries answers like a new one
+                try:
+                    labels = [str(d) for d in m.template_data.value.decoded_descriptors_all_subsets[0]]
+                    ids = [lab for lab in labels if lab[0] == '0' and lab[:3] != '031'][:3]
+                    for lab in ids:
+                        if rng.random() < 0.5:
+                            bad = rng.choice(['%s[1:' % lab, '/%s[2:x]' % lab, '@[1:/%s' % lab, '%s[1:2:3:4]' % lab, '@[2'])
+                            hist.append('failing-query:%s' % bad)
+                            ctx.count('failing_queries_on_long_lived_querent')
+                            try:
+                                long_q.query(m, bad)
+                            except Exception:
+                                pass
+                        ctx.count('queries_on_long_lived_querent')
+                        a = outcome_of(lambda: repr(long_q.query(m, lab).all_values()))
+                        f = outcome_of(lambda: repr(DataQuerent(NodePathParser()).query(m, lab).all_values()))
+                        if a != f:
+                            ctx.violate('history-dependence/long-lived-querent/after-%s' % ('failing-query' if hist[-1].startswith('failing-query') else 'queries'),
+                                        'step %d: query %r of %s on the long-lived querent gives %s, a new querent %s; history %s'
+                                        % (step, lab, name, a[:80], f[:80], hist[-6:]), dict(history=hist, step=step, message=name, op='query'))
+                            break
+                except Exception as e:
+                    ctx.notes.append('long-lived querent step failed: %r' % (e,))
                 prev = 'requery'
             size1 = cache_sizes()
             if size0 is not None and size1 is not None:
